@@ -8,7 +8,7 @@ from hypothesis import strategies as st
 
 from props import c04
 from vlib import cidlib, enc_ods, enc_xlsx, gen_tables, model_fields, model_validio
-from vlib.runner import norm_message
+from vlib.runner import norm_message, reused_dir
 
 import cutplace
 from cutplace import errors
@@ -113,7 +113,7 @@ def _describe(item):
 
 def check_case(sub, case):
     spec, rows = case["spec"], case["rows"]
-    tmpdir = tempfile.mkdtemp(prefix="c17-")
+    tmpdir = reused_dir("c17")
     try:
         results = {}
         models = {}
